@@ -65,4 +65,68 @@ def run(rep: Report, tier: str) -> None:
         rep.add(Finding("R29.2", "R29.2/quote_name", qn.module.rel, qn.node.lineno, qn.qualname,
                         f"quote_name writes the VTL name between double quotes unchanged ({[src(r.value) for r in rets]}); DuckDB compares identifiers case-insensitively even when "
                         f"quoted, so two components (or datasets) whose names differ only in case are the same column (table) to DuckDB"))
+    # ---- R29.3 clause operators on case-variant names: validator == structure builder == SELECT list, compared case-sensitively ----
+    rep.rule("R29.3", "clause operators over a dataset holding M and m: the components semantic analysis declares, the transpiler's structure (dict key == component name) "
+                      "and the generated SELECT list agree exactly, letter case included")
+    from sa import structmodel as sm
+    from sa.e6 import Unmodelled
+    M = sm.Model(P)
+
+    def D() -> sm.MDS:
+        return M.ds("DS_1", ["A"], ["M", "m", "N"], ["V"], ["T"])
+    n3 = 0
+    for op, names, ren in (("keep", ["m"], None), ("keep", ["M"], None), ("drop", ["M"], None), ("drop", ["m", "N"], None), ("rename", [], [("N", "n")]),
+                           ("rename", [], [("M", "X")]), ("rename", [], [("V", "v")]), ("calc", ["m"], None), ("calc", ["n"], None)):
+        label = f"{op}/{'+'.join(names) if names else '+'.join(f'{a}>{b}' for a, b in ren or [])}"
+        try:
+            a = sm.clause_interpreter(M, op, D(), names, ren)
+            b = sm.clause_visitor(M, op, D(), names, ren, role_token="measure" if op == "calc" else None)
+            d = D()
+            c = sm.clause_sql(M, op, d, names, ren, role_token="measure" if op == "calc" else None)
+        except Unmodelled as e:
+            raise AnalysisError(f"R29.3 {label}: construct outside the evaluator's language: {e}")
+        if a[0] != "ok":
+            raise AnalysisError(f"R29.3 {label}: rejected by the clause validator in the model ({a}); the case-variant grid has lost its anchor")
+        n3 += 1
+        want = sorted(a[1].components)
+        fb = P.func(f"{sm.SV}.{sm.CLAUSE_BUILDERS[op]}")
+        fs = P.func(f"{sm.TRQ}.{sm.SQL_HANDLERS[op]}")
+        rep.instance("R29.3", label, nontrivial=True, sample={"validator": want})
+        if b[0] != "ok" or sorted(b[1].components) != want:
+            rep.add(Finding("R29.3", f"R29.3/builder/{label}", fb.module.rel, fb.node.lineno, fb.qualname,
+                            f"{op} {names or ren} on DS_1(id A; measures M, m, N; viral V): semantic analysis declares {want}, the transpiler's structure has the keys "
+                            f"{sorted(b[1].components) if b[0] == 'ok' else b}"))
+        elif any(k != c_.name for k, c_ in b[1].components.items()):
+            bad = {k: c_.name for k, c_ in b[1].components.items() if k != c_.name}
+            rep.add(Finding("R29.3", f"R29.3/builder-names/{label}", fb.module.rel, fb.node.lineno, fb.qualname,
+                            f"{op} {names or ren}: the transpiler's structure stores under the key(s) {sorted(bad)} components that still call themselves {sorted(bad.values())}: code that reads "
+                            f"comp.name writes the old name into the SQL; for a rename to a case variant DuckDB resolves it silently (identifiers are case-insensitive) and the component is lost"))
+        cols = sorted(sm.sql_columns(c[1], list(d.components))) if c[0] == "ok" and not isinstance(c[1], str) else None
+        if cols != want:
+            rep.add(Finding("R29.3", f"R29.3/sql/{label}", fs.module.rel, fs.node.lineno, fs.qualname,
+                            f"{op} {names or ren} on DS_1(id A; measures M, m, N; viral V): semantic analysis declares {want}, the SELECT list delivers {cols}"))
+    rep.floor("R29.3 cases", n3, 8)
+    # ---- R29.4 a dataset scheduled for deletion is dropped: its name (any letter case) is free again for a later table ----
+    rep.rule("R29.4", "cleanup_scheduled_datasets: every dataset in the deletion schedule is dropped on every path (DuckDB's catalog is case-insensitive: a table that lingers "
+                      "blocks a later dataset whose name differs only in case)")
+    from sa.cfg import CFG, describe_path
+    cl = P.func("vtlengine.duckdb_transpiler.io._execution.cleanup_scheduled_datasets")
+    g = CFG(cl.node)
+    loops = [x for x in walk_no_nested(cl.node) if isinstance(x, ast.For) and "deletion" in src(x.iter)]
+    if not loops:
+        raise AnalysisError("cleanup_scheduled_datasets: the loop over the deletion schedule was not found")
+    drops = [x for x in g.nodes if x.stmt is not None and x.kind == "stmt" and any(isinstance(y, ast.Constant) and isinstance(y.value, str) and "DROP TABLE" in y.value.upper() for y in ast.walk(x.stmt))]
+    if not drops:
+        raise AnalysisError("cleanup_scheduled_datasets: no DROP TABLE statement found")
+    for lp in loops:
+        head = [x for x in g.nodes if x.stmt is lp and x.kind == "loop"]
+        first = [x for x in g.nodes if x.stmt is lp.body[0]]
+        rep.instance("R29.4", f"drop-on-every-path/{lp.lineno}", nontrivial=True, sample={"drop sites": [d_.lineno for d_ in drops]})
+        for st_ in first:
+            pth = [st_] if st_ in drops else g.path_avoiding(st_, lambda x: x in head or x is g.exit, lambda x: x in drops, follow_exc=False)
+            if st_ not in drops and pth is not None:
+                rep.add(Finding("R29.4", "R29.4/drop-on-every-path", cl.module.rel, lp.lineno, cl.qualname,
+                                "a dataset of the deletion schedule can be left in the database (a path through the loop body reaches the next iteration without DROP TABLE): "
+                                "the table lingers, and a later statement that creates a dataset whose name differs only in letter case fails with `Table ... already exists`",
+                                describe_path(pth)))
     rep.assumptions = ["DuckDB identifiers are case-insensitive even when quoted (documented DuckDB behaviour; confirmed by triage/c29_case_demo.py)"]
